@@ -608,12 +608,13 @@ def kani_check():
             failed_desc = re.findall(r"Failed Checks: (.*)", txt)
             real = [d for d in failed_desc if "unwinding assertion" not in d and "recursion unwinding" not in d]
             failed = ("VERIFICATION:- FAILED" in txt and m is not None and int(m.group(1)) >= 1 and bool(real)
-                      and "CBMC failed" not in txt and "signal" not in txt.lower().split("verification:-")[-1][:0])
+                      and "CBMC failed" not in txt and "CBMC timed out" not in txt)
             out["harnesses"].append({"name": h, "status": "ok" if ok else ("failed" if failed else "error"),
                                      "checks": int(m.group(2)) if m else 0, "failed_checks": int(m.group(1)) if m else None,
                                      "tail": txt[-2500:] if not ok else ""})
         out["wall_s"] = round(time.time() - t0, 1)
-        json.dump(out, open(cpath, "w"))
+        if all(h["status"] in ("ok", "failed") for h in out["harnesses"]):  # (a killed or timed-out run is not remembered)
+            json.dump(out, open(cpath, "w"))
         return out
     finally:
         shutil.rmtree(scratch, ignore_errors=True)
